@@ -1,2 +1,129 @@
-/-! Line driver for C15 (stub; replaced when the model is written). -/
-def main : IO Unit := pure ()
+import MpVerif.C15.Model
+/-! Line driver for C15.  Input: `<mode> <macro>* | <gap>:<sig>*` (see harness/h_signal.cc); output: the
+    canonical observation line predicted by the model.  Only parsing and printing here; every decision is
+    taken by `MpVerif.C15` model functions (`wfProg`, `validSched`, `schedule`, `trace`). -/
+open MpVerif.C15
+
+def microName : Micro → String
+  | .cAlloc => "sh.ctor.enter"
+  | .cIntr => "sh.ctor.after_set_interrupter"
+  | .cPtr => "sh.ctor.after_msg_ptr"
+  | .cSize => "sh.ctor.after_msg_size"
+  | .cSigInt => "sh.ctor.after_signal_int"
+  | .cSigTerm => "sh.ctor.after_signal_term"
+  | .cStop0 => "sh.ctor.after_stop0"
+  | .setH _ => "sh.set.after_handler"
+  | .setD _ => "sh.set.after_data"
+  | .work => "W"
+  | .dIntr => "sh.dtor.after_set_interrupter"
+  | .dStop1 => "sh.dtor.after_stop1"
+  | .dH0 => "sh.dtor.after_handler0"
+  | .dSize0 => "sh.dtor.after_msg_size0"
+  | .dFree => "free"
+
+def sigName : Sig → String
+  | .int => "I"
+  | .term => "T"
+
+def b01 (b : Bool) : String := if b then "1" else "0"
+
+def stateStr (s : St) : String :=
+  let p := match s.msgPtr with | .null => "N" | .live => "L" | .dangling => "X"
+  let i := match s.intr with | .self => "S" | .obj => "O" | .dangling => "X"
+  s!"[s{s.stop},h{s.handler},d{s.data},p{p},z{s.msgSize},i{i},I{b01 s.dispInt},T{b01 s.dispTerm}]"
+
+def sigToken (g : Sig) (obs : List Obs) (s : St) : String :=
+  let brk := obs.filterMap (fun o => match o with
+    | .brk n ok => some (if ok then s!"brk={n}" else s!"brk=!{n}") | _ => none)
+  let cbs := obs.filterMap (fun o => match o with | .cb h d => some s!"{h}:{d}" | _ => none)
+  let re := obs.filterMap (fun o => match o with | .rearm g => some (sigName g) | _ => none)
+  let killed := obs.filterMap (fun o => match o with | .killed g => some (sigName g) | _ => none)
+  let head := s!"!{sigName g}("
+  if !killed.isEmpty then head ++ "killed=" ++ String.join killed ++ ")"
+  else if obs.contains .exit1 then head ++ String.intercalate "," brk ++ ",exit=1)"
+  else
+    head ++ String.intercalate "," brk ++ ",cb=" ++ (if cbs.isEmpty then "-" else String.intercalate "+" cbs)
+      ++ ",rearm=" ++ (if re.isEmpty then "-" else String.join re) ++ ")" ++ stateStr s
+
+/-- hook-point names of a macro's steps, in the layout's order -/
+def stepNames (L : Layout) : Macro → List String
+  | .reg _ _ =>
+    if L.regClearFirst then ["sh.set.after_handler_clear", "sh.set.after_data", "sh.set.after_handler"]
+    else ["sh.set.after_handler", "sh.set.after_data"]
+  | m => (expand L m).map microName
+
+def evToken (e : Ev) (name : String) (obs : List Obs) (s : St) : String :=
+  match e with
+  | .sig g => sigToken g obs s
+  | .step .work =>
+    let q := obs.filterMap (fun o => match o with | .query b => some (b01 b) | _ => none)
+    "W(q=" ++ String.join q ++ ")" ++ stateStr s
+  | .step _ => name ++ stateStr s
+
+def parseMacro (t : String) : Option Macro :=
+  match t.splitOn ":" with
+  | ["C"] => some .ctor
+  | ["D"] => some .dtor
+  | ["W"] => some .work
+  | ["R", h, d] =>
+    match h.toNat?, d.toNat? with
+    | some h, some d => if h ≤ 7 && d ≤ 7 then some (.reg h d) else none
+    | _, _ => none
+  | _ => none
+
+def parseSched (t : String) : Option (Nat × Sig) :=
+  match t.splitOn ":" with
+  | [g, "I"] => g.toNat?.map (fun n => (n, Sig.int))
+  | [g, "T"] => g.toNat?.map (fun n => (n, Sig.term))
+  | _ => none
+
+def parseMode : String → Option Mode
+  | "bsd" => some .bsd
+  | "sysv" => some .sysv
+  | _ => none
+
+def renderTrace : List String → List (Ev × List Obs × St) → List String
+  | _, [] => ["end"]
+  | names, (e, obs, s) :: r =>
+    let (name, names') := match e with
+      | .step _ => (names.headD "?", names.drop 1)
+      | .sig _ => ("", names)
+    if s.halted.isSome then [evToken e name obs s] else evToken e name obs s :: renderTrace names' r
+
+def parseLayout : String → Option Layout
+  | "pinned" => some ⟨false, false⟩
+  | "ctorfix" => some ⟨true, false⟩
+  | "regfix" => some ⟨false, true⟩
+  | "fixed" => some ⟨true, true⟩
+  | _ => none
+
+def handleLine (L : Layout) (line : String) : String :=
+  let toks := (line.trimAscii.toString.splitOn " ").filter (· ≠ "")
+  match toks with
+  | [] => "bad-op"
+  | m :: rest =>
+    let progT := rest.takeWhile (· ≠ "|")
+    let schT := (rest.dropWhile (· ≠ "|")).drop 1
+    match parseMode m, progT.mapM parseMacro, schT.mapM parseSched with
+    | some md, some prog, some sch =>
+      let micros := expandProg L prog
+      let names := (prog.map (stepNames L)).flatten
+      if wfProg L prog && validSched micros.length sch then
+        String.intercalate " " (("start" ++ stateStr init) :: renderTrace names (trace md init (schedule micros 0 sch)))
+      else "bad-op"
+    | _, _, _ => "bad-op"
+
+partial def loop (L : Layout) (h : IO.FS.Stream) (out : IO.FS.Stream) : IO Unit := do
+  let line ← h.getLine
+  if line.isEmpty then return ()
+  if line.trimAscii.toString.isEmpty then loop L h out
+  else
+    out.putStrLn (handleLine L line)
+    loop L h out
+
+/-- `drv_c15 [pinned|ctorfix|regfix|fixed]` (default pinned): the store order the model uses -/
+def main (args : List String) : IO UInt32 := do
+  let out ← IO.getStdout
+  match parseLayout (args.headD "pinned") with
+  | some L => loop L (← IO.getStdin) out; return 0
+  | none => IO.eprintln "unknown layout"; return 2
